@@ -860,17 +860,17 @@ theorem seek_step (root : FNode) (hws : wellSized root = true) (r : Reader) (pos
     simp only [Reader.step, Reader.seek, Spec.step]
     by_cases h0 : off = 0
     · subst h0
-      simp only [if_true, Spec.seekTo, Int.add_zero]
+      simp only [if_true, Spec.seekTo]
       have : ¬ ((pos : Int) < 0) := by omega
       simp only [this, if_false, hoff, Int.toNat_natCast]
       exact ⟨Or.inl ⟨trivial, h⟩, fun hf => ⟨⟨trivial, h⟩, hf⟩⟩
     · simp only [h0, if_false]
-      have := key (r.offset + off)
+      have := key (wrap64 (r.offset + off))
       rw [hoff] at this ⊢
       exact this
   | 2 =>
     simp only [Reader.step, Reader.seek, Spec.step]
-    have := key (r.size + off)
+    have := key (wrap64 (r.size + off))
     rw [hsize] at this ⊢
     exact this
   | n + 3 =>
@@ -879,8 +879,8 @@ theorem seek_step (root : FNode) (hws : wellSized root = true) (r : Reader) (pos
 
 /-- one operation: it agrees with the byte-slice reader, or (only if a fetch failed during the call) it is a
 `faulty` outcome; either way the representation invariant holds afterwards -/
-theorem step_okF (root : FNode) (hws : wellSized root = true) (r : Reader) (pos : Nat) (h : Inv root r pos)
-    (op : Op) :
+theorem step_okF (root : FNode) (r : Reader) (pos : Nat) (h : Inv root r pos)
+    (op : Op) (hws : op.isSeek = true → wellSized root = true) :
     ((agrees op pos (content root).length (r.step op).2 (Spec.step ⟨content root, pos⟩ op).2 ∧
         Inv root (r.step op).1 (Spec.step ⟨content root, pos⟩ op).1.pos) ∨
      (∃ s', faulty op ⟨content root, pos⟩ (r.step op).2 s' ∧ s'.content = content root ∧
@@ -890,7 +890,7 @@ theorem step_okF (root : FNode) (hws : wellSized root = true) (r : Reader) (pos 
         Inv root (r.step op).1 (Spec.step ⟨content root, pos⟩ op).1.pos) ∧ (r.step op).1.w.fails = []) := by
   cases op with
   | seek off wh =>
-    obtain ⟨hAF, hNF⟩ := seek_step root hws r pos h off wh
+    obtain ⟨hAF, hNF⟩ := seek_step root (hws rfl) r pos h off wh
     refine ⟨?_, fun hf => ?_⟩
     · rcases hAF with ⟨h1, h2⟩ | ⟨h1, h2⟩
       · exact Or.inl ⟨Or.inl h1, h2⟩
@@ -971,15 +971,18 @@ theorem step_okF (root : FNode) (hws : wellSized root = true) (r : Reader) (pos 
       · exact absurd he hne
       · exact ⟨hgood hq, hfl⟩
 
+theorem seekTo_content (s : Spec) (t : Int) : (s.seekTo t).1.content = s.content := by
+  unfold Spec.seekTo; split <;> rfl
+
 theorem spec_content (s : Spec) (op : Op) : (s.step op).1.content = s.content := by
   cases op with
   | read k => rfl
   | writeTo => rfl
   | seek off wh =>
     match wh with
-    | 0 => simp only [Spec.step, Spec.seekTo]; split <;> rfl
-    | 1 => simp only [Spec.step, Spec.seekTo]; split <;> rfl
-    | 2 => simp only [Spec.step, Spec.seekTo]; split <;> rfl
+    | 0 => exact seekTo_content _ _
+    | 1 => exact seekTo_content _ _
+    | 2 => exact seekTo_content _ _
     | n + 3 => rfl
 
 theorem spec_eta (s : Spec) (op : Op) : (s.step op).1 = ⟨s.content, (s.step op).1.pos⟩ := by
@@ -989,14 +992,16 @@ theorem spec_eta (s : Spec) (op : Op) : (s.step op).1 = ⟨s.content, (s.step op
 
 /-- every run of the reader, with ANY pattern of fetch failures, agrees with the byte-slice reader up to `faulty`
 outcomes -/
-theorem run_agreesF (root : FNode) (hws : wellSized root = true) : ∀ (ops : List Op) (r : Reader) (pos : Nat),
+theorem run_agreesF (root : FNode) : ∀ (ops : List Op) (r : Reader) (pos : Nat),
+    (∀ op ∈ ops, op.isSeek = true → wellSized root = true) →
     Inv root r pos → Spec.runAgreesF ⟨content root, pos⟩ ops (r.run ops) := by
   intro ops
   induction ops with
-  | nil => intro r pos _; simp [Reader.run, Spec.runAgreesF]
+  | nil => intro r pos _ _; simp [Reader.run, Spec.runAgreesF]
   | cons op ops ih =>
-    intro r pos h
-    obtain ⟨hAF, _⟩ := step_okF root hws r pos h op
+    intro r pos hws h
+    have ih := fun r pos => ih r pos (fun o ho => hws o (List.mem_cons_of_mem _ ho))
+    obtain ⟨hAF, _⟩ := step_okF root r pos h op (hws op (by simp))
     simp only [Reader.run, Spec.runAgreesF]
     rcases hAF with ⟨ha, hi⟩ | ⟨s', hf, hc, hi⟩
     · left
@@ -1010,14 +1015,16 @@ theorem run_agreesF (root : FNode) (hws : wellSized root = true) : ∀ (ops : Li
       rw [hs]; exact this
 
 /-- every run of the reader without fetch failures agrees with the byte-slice reader -/
-theorem run_agrees (root : FNode) (hws : wellSized root = true) : ∀ (ops : List Op) (r : Reader) (pos : Nat),
+theorem run_agrees (root : FNode) : ∀ (ops : List Op) (r : Reader) (pos : Nat),
+    (∀ op ∈ ops, op.isSeek = true → wellSized root = true) →
     Inv root r pos → r.w.fails = [] → Spec.runAgrees ⟨content root, pos⟩ ops (r.run ops) := by
   intro ops
   induction ops with
-  | nil => intro r pos _ _; simp [Reader.run, Spec.runAgrees]
+  | nil => intro r pos _ _ _; simp [Reader.run, Spec.runAgrees]
   | cons op ops ih =>
-    intro r pos h hf
-    obtain ⟨_, hNF⟩ := step_okF root hws r pos h op
+    intro r pos hws h hf
+    have ih := fun r pos => ih r pos (fun o ho => hws o (List.mem_cons_of_mem _ ho))
+    obtain ⟨_, hNF⟩ := step_okF root r pos h op (hws op (by simp))
     obtain ⟨⟨ha, hi⟩, hfl⟩ := hNF hf
     simp only [Reader.run, Spec.runAgrees]
     refine ⟨ha, ?_⟩
